@@ -9,8 +9,16 @@
 
   All statements hold as posed; `C12_ignores_bindings`, `C12_tokens_strip_only_bindings`,
   `C12_strip_idempotent` and `C12_hash_of_key` need no well-formedness.
+
+  Second part (proofs in `Lemmas/ExpandEmit.lean`): what the generators of `Expand.lean` PRINT for a dispatch key —
+  the where-clause of the main impl as an exact list (`C12_main_where_clause_emits_tbTokens`, `…_inherent`,
+  `…_of_accepted`), the leading arguments of the helper impls (`C12_helper_wildcards_emit_tbTokens`: a wildcard is the
+  projection of the FAMILY's stored key, finding F-D3) and which member's spelling the stored key has
+  (`C12_emitted_bound_is_a_members_bound`: the last member's, for un-nested inputs).
 -/
 import DisjointImpls.Lemmas.KeyLemmas
+import DisjointImpls.Lemmas.ExpandEmit
+import DisjointImpls.Props.C17
 namespace DI
 
 /-- on well-formed paths `TraitBound::eq` is equality of keys -/
@@ -62,22 +70,22 @@ theorem C12_hash_iff (p q : T) (hp : wfPath p = true) (hq : wfPath q = true) :
 theorem C12_ignores_bindings (p : T) : keyOf (stripBindings p) = keyOf p := keyOf_stripBindings p
 
 section Forms
-private def seg (n : String) (args : T) : T := .node "PathSegment" [] [.node "Ident" [n] [], args]
-private def path (segs : List T) : T := .node "Path" [] [.node "IgnL" [] [.node "None" [] []], .node "List" [] segs]
-private def angle (args : List T) : T :=
+private def fseg (n : String) (args : T) : T := .node "PathSegment" [] [.node "Ident" [n] [], args]
+private def fpath (segs : List T) : T := .node "Path" [] [.node "IgnL" [] [.node "None" [] []], .node "List" [] segs]
+private def fangle (args : List T) : T :=
   .node "PathArguments::AngleBracketed" [] [.node "Ign" [] [.node "None" [] []], .node "List" [] args]
 private def binding : T := .node "GenericArgument::AssocType" [] [.node "Ident" ["A"] [], .node "None" [] [], .tparam "X"]
 
 /-- `Tr`, `Tr<>`, `Tr<A = X>` have the same key; `Tr<u8>` and `Tr<u8, A = X>` too, and a different one -/
 theorem C12_tr_forms :
-    keyOf (path [seg "Tr" (.node "PathArguments::None" [] [])]) = keyOf (path [seg "Tr" (angle [])]) ∧
-    keyOf (path [seg "Tr" (angle [])]) = keyOf (path [seg "Tr" (angle [binding])]) ∧
-    keyOf (path [seg "Tr" (angle [.node "GenericArgument::Type" [] [.tparam "U"]])]) =
-      keyOf (path [seg "Tr" (angle [.node "GenericArgument::Type" [] [.tparam "U"], binding])]) ∧
-    keyOf (path [seg "Tr" (angle [.node "GenericArgument::Type" [] [.tparam "U"]])]) ≠
-      keyOf (path [seg "Tr" (angle [])]) ∧
-    tbEq (path [seg "Tr" (.node "PathArguments::None" [] [])]) (path [seg "Tr" (angle [binding])]) = .t ∧
-    wfPath (path [seg "Tr" (angle [binding])]) = true := by
+    keyOf (fpath [fseg "Tr" (.node "PathArguments::None" [] [])]) = keyOf (fpath [fseg "Tr" (fangle [])]) ∧
+    keyOf (fpath [fseg "Tr" (fangle [])]) = keyOf (fpath [fseg "Tr" (fangle [binding])]) ∧
+    keyOf (fpath [fseg "Tr" (fangle [.node "GenericArgument::Type" [] [.tparam "U"]])]) =
+      keyOf (fpath [fseg "Tr" (fangle [.node "GenericArgument::Type" [] [.tparam "U"], binding])]) ∧
+    keyOf (fpath [fseg "Tr" (fangle [.node "GenericArgument::Type" [] [.tparam "U"]])]) ≠
+      keyOf (fpath [fseg "Tr" (fangle [])]) ∧
+    tbEq (fpath [fseg "Tr" (.node "PathArguments::None" [] [])]) (fpath [fseg "Tr" (fangle [binding])]) = .t ∧
+    wfPath (fpath [fseg "Tr" (fangle [binding])]) = true := by
   decide
 end Forms
 
@@ -117,5 +125,349 @@ theorem C12_panics_outside :
     tbEq (.node "Path" [] [.node "IgnL" [] [.node "None" [] []], .node "List" [] [.node "PathSegment" [] [.node "Ident" ["Fn"] [],
       .node "PathArguments::Parenthesized" [] []]]]) (.node "Path" [] [.node "IgnL" [] [.node "None" [] []], .node "List" [] [.node "PathSegment" [] [.node "Ident" ["Fn"] [],
       .node "PathArguments::Parenthesized" [] []]]]) = .panic := by decide
+
+/-! ## What the generators print for a dispatch key (last clause of C12)
+
+The theorems above are about `tbTokens` in isolation; the ones below are about the generators of `Expand.lean` that USE
+it (`main_trait::generate`, `disjoint::generate`), and are exact tree equalities — not modulo `normTr` like the checker
+`ExpandOK` (C01). Definitions (`Lemmas/ExpandEmit.lean`): `implWhere_em m` = the where-predicates of the impl `m`;
+`boundedTypes_em abg` = the distinct bounded types of the keys in order of first occurrence; `keyPathsFor_em abg b` =
+the stored trait paths of the keys on `b` (first occurrences under `TraitBound::eq`); `helperArgs_em abg hargs` =
+`lifetimes of hargs ++ one projection per (key, assoc) of abg.idents ++ the other hargs`. -/
+
+/-- `TraitBound::to_tokens`, tree for tree: the leading `::` (`lc`), every leading segment (`i`), the identifier, the
+    `::` before `<` (`c2`) and every lifetime/type/const argument are printed as stored, in order; exactly the
+    `GenericArgument::AssocType` arguments of the last segment are dropped (`Tr<A = X>` ↦ `Tr<>`). A path whose last
+    segment has no angle-bracketed arguments is printed unchanged. No side condition. -/
+theorem C12_tokens_spelling (p : T) :
+    (∃ lc i id c2 args, p = mkPath lc (i ++ [angleSeg id c2 args]) ∧
+      tbTokens p = mkPath lc (i ++ [angleSeg id c2 (nonAssoc args)])) ∨
+    (tbTokens p = p ∧ ∀ l args, lastSeg p = some l → segArgs l ≠ .angle args) :=
+  tbTokens_spelling_em p
+
+/-- the projection of a key is literally `<bounded as P>::assoc` with `P = tbTokens path` (`qualified_em`: qualified
+    self `bounded`, position = number of segments of `P`, path = `P` followed by the segment `assoc`), and reading it
+    back (`projectionRead_em`) returns the bounded type, `tbTokens path` and `assoc`. Side condition: the stored
+    trait path is a `Path [lead, List segments]` tree (`isPathNode_em`, executable; implied by `wfPath`). -/
+theorem C12_projection_is_qualified_tbTokens (b tr : T) (a : String) (h : isPathNode_em tr = true) :
+    projection b tr a = qualified_em b (tbTokens tr) a ∧
+    projectionRead_em (projection b tr a) = some (b, tbTokens tr, a) :=
+  ⟨projection_eq_em b tr a h, projectionRead_projection_em b tr a h⟩
+
+/-- **Trait mode.** If `main_trait::generate` succeeds (`mainImplOfTrait tr idx g = .ok m`, no other side condition),
+    the where-clause of the main impl is EXACTLY:
+    * the predicates inherited from the trait definition (`traitOwnPreds_em tr g`: the trait's where-clause and the
+      bounds of its parameters with the header's arguments substituted, as `resolve_main_trait_params` computes them);
+    * for every distinct bounded type `b` of the keys, in order, ONE predicate `b: bounds` whose bounds are `?Sized`
+      iff `b ∈ g.2.1.unsized`, followed by `tbTokens p` (no modifier, no lifetimes) for every stored key path `p` on `b`;
+    * `Self: _<Trait><idx><args>` where `<Trait>` is the last identifier of the first block's trait path and `args` are
+      the lifetime arguments of the header, then `<bounded as tbTokens p>::assoc` for every `((bounded, p), assoc)` of
+      `g.2.1.idents` in order, then the header's other arguments. -/
+theorem C12_main_where_clause_emits_tbTokens (tr : T) (idx : Nat) (g : T × ABG × List Blk) (m : T)
+    (hm : mainImplOfTrait tr idx g = .ok m) :
+    implWhere_em m = traitOwnPreds_em tr g ++
+      (boundedTypes_em g.2.1).map (fun b => whereType b
+        ((if g.2.1.unsized.contains b then [maybeSizedBound] else []) ++
+          (keyPathsFor_em g.2.1 b).map (fun p => traitBoundOf (tbTokens p)))) ++
+      [whereType selfTy [traitBoundOf (pathNode noLead [seg (genIdentStr (headerName_em g) idx)
+        (angle ((headerArgs_em g).filter isLifetimeArg ++
+          g.2.1.idents.map (fun kx => gaType (projection kx.1.1 kx.1.2 kx.2)) ++
+          (headerArgs_em g).filter (fun a => !isLifetimeArg a)))])]] := by
+  rw [mainImplOfTrait_where_em hm, List.append_assoc]; rfl
+
+/-- **Inherent mode.** If the main inherent impl is generated (`mainImplInherent idx g = .ok (some m)`), its
+    where-clause is EXACTLY the key predicates (as in trait mode) followed by `Self: _<SelfType><idx><args>`, where
+    `args` are the sorted lifetime parameters of the first block, the projections of the keys, the sorted other
+    parameters (`selfArgs_em g` = what `gen_inherent_self_ty_args` prints). The first block's own where-clause is not
+    part of it. -/
+theorem C12_main_where_clause_emits_tbTokens_inherent (idx : Nat) (g : T × ABG × List Blk) (m : T)
+    (hm : mainImplInherent idx g = .ok (some m)) :
+    implWhere_em m =
+      (boundedTypes_em g.2.1).map (fun b => whereType b
+        ((if g.2.1.unsized.contains b then [maybeSizedBound] else []) ++
+          (keyPathsFor_em g.2.1 b).map (fun p => traitBoundOf (tbTokens p)))) ++
+      [whereType selfTy [traitBoundOf (pathNode noLead [seg (genIdentStr (selfName_em g) idx)
+        (angle ((selfArgs_em g).filter isLifetimeArg ++
+          g.2.1.idents.map (fun kx => gaType (projection kx.1.1 kx.1.2 kx.2)) ++
+          (selfArgs_em g).filter (fun a => !isLifetimeArg a)))])]] := by
+  rw [mainImplInherent_where_em hm]; rfl
+
+/-- the same over the family's KEY MAP `abg.bounds` (instead of its flattening `abg.idents`), when the key map is a
+    proper IndexMap (`keysProper_em abg`, executable: keys pairwise different under `keyEq`, every key comparable
+    with itself, every key bound by at least one member): the bounded types are those of the map in its order, the
+    bounds printed for `b` are `tbTokens` of the stored path of EVERY key `(b, p)` of the map, each once, in order, and
+    the projections are those of every key, one per associated-type identifier bound under it. -/
+theorem C12_where_clause_over_key_map (abg : ABG) (h : keysProper_em abg = true) :
+    boundedTypes_em abg = dedupKeys (abg.bounds.map (fun e => e.1.1)) ∧
+    (∀ b, keyPathsFor_em abg b = (abg.bounds.filter (fun e => e.1.1 == b)).map (fun e => e.1.2)) ∧
+    (∀ hargs, helperArgs_em abg hargs = hargs.filter isLifetimeArg ++
+      abg.bounds.flatMap (fun e => (entryNames_em e).map (fun x => gaType (projection e.1.1 e.1.2 x))) ++
+      hargs.filter (fun a => !isLifetimeArg a)) :=
+  ⟨boundedTypes_eq_em abg h, fun b => keyPathsFor_eq_em abg b h, fun hargs => helperArgs_eq_em abg hargs⟩
+
+/-- … and every family of an ACCEPTED grouping has a proper key map -/
+theorem C12_keysProper_of_accepted (items : List T) (groups : Groups) (h : parseGroups items = .ok groups) :
+    ∀ e ∈ groups, keysProper_em e.2.1 = true :=
+  fun _ he => parseGroups_keysProper_em h he
+
+/-- hence, for a family of an accepted grouping (trait mode): the key predicates of the main impl, stated over the
+    key map with no further side condition -/
+theorem C12_main_where_clause_of_accepted (items : List T) (groups : Groups) (h : parseGroups items = .ok groups)
+    (tr : T) (idx : Nat) (g : T × ABG × List Blk) (hg : g ∈ groups) (m : T) (hm : mainImplOfTrait tr idx g = .ok m) :
+    implWhere_em m = traitOwnPreds_em tr g ++
+      (dedupKeys (g.2.1.bounds.map (fun e => e.1.1))).map (fun b => whereType b
+        ((if g.2.1.unsized.contains b then [maybeSizedBound] else []) ++
+          (g.2.1.bounds.filter (fun e => e.1.1 == b)).map (fun e => traitBoundOf (tbTokens e.1.2)))) ++
+      [selfPredicate_em (genIdentStr (headerName_em g) idx) g.2.1 (headerArgs_em g)] := by
+  have hk := parseGroups_keysProper_em h hg
+  rw [mainImplOfTrait_where_em hm, List.append_assoc]
+  unfold emittedPreds_em
+  rw [boundedTypes_eq_em _ hk]
+  congr 2
+  apply List.map_congr_left
+  intro b _
+  rw [keyPredicate_eq_em _ _ hk]
+
+/-- **Helper impls** (both modes, `disjoint::generate`): helper impl `i` is built from member `i` and row `i`; the
+    arguments of its trait path START with the printed row (`rowArgs`), and entry `j` of the row is printed as
+    * `some payload` ↦ the payload, as a type argument;
+    * `none` (wildcard) ↦ `<bounded as tbTokens p>::assoc` for the FAMILY's stored key `((bounded, p), assoc) =
+      g.2.1.idents[j]` — the bounded type and the path are NOT seen through the member's substitution (finding F-D3;
+      `C12_helper_wildcard_prints_family_key_counterexample` below).
+    Only side condition: the generator succeeds. -/
+theorem C12_helper_wildcards_emit_tbTokens (idx : Nat) (g : T × ABG × List Blk) (hs : List T)
+    (hh : helperImpls idx g = some hs) :
+    hs.length = min g.2.2.length g.2.1.payloads.length ∧
+    ∀ (i : Nat) (h : T), hs[i]? = some h → ∃ b row, g.2.2[i]? = some b ∧ g.2.1.payloads[i]? = some row ∧
+      (∃ rest, implTraitArgs_em h = rowArgs g.2.1.idents row ++ rest) ∧
+      ∀ (j : Nat) (bounded p : T) (assoc : String) (r : Option T),
+        g.2.1.idents[j]? = some ((bounded, p), assoc) → row[j]? = some r →
+        (implTraitArgs_em h)[j]? = some (match r with
+          | some payload => gaType payload
+          | none => gaType (projection bounded p assoc)) := by
+  obtain ⟨h1, h2⟩ := helperImpls_row_entries_em hh
+  refine ⟨h1, fun i h hi => ?_⟩
+  obtain ⟨b, row, hb, hr, hrest, hent⟩ := h2 i h hi
+  refine ⟨b, row, hb, hr, hrest, fun j bounded p assoc r hk hrj => ?_⟩
+  rw [hent j _ r hk hrj]
+  cases r <;> rfl
+
+/-- what follows the row: in trait mode the member's own trait arguments, and the helper trait is named
+    `_<member's trait name><idx>`; in inherent mode the self-type arguments `selfArgs_em g`, and the helper trait is
+    named `_<SelfType><idx>`. (`inherentFamily_inh g`, executable: the first block has no trait path.) -/
+theorem C12_helper_impl_arguments (idx : Nat) (g : T × ABG × List Blk) (hs : List T)
+    (hh : helperImpls idx g = some hs) :
+    ∀ (i : Nat) (h : T), hs[i]? = some h → ∃ b row, g.2.2[i]? = some b ∧ g.2.1.payloads[i]? = some row ∧
+      (inherentFamily_inh g = false →
+        implTraitName_em h = genIdentStr (implTraitName_em b.item) idx ∧
+        implTraitArgs_em h = rowArgs g.2.1.idents row ++ implTraitArgs_em b.item) ∧
+      (inherentFamily_inh g = true →
+        implTraitName_em h = genIdentStr (selfName_em g) idx ∧
+        implTraitArgs_em h = rowArgs g.2.1.idents row ++ selfArgs_em g) := by
+  intro i h hi
+  cases hinh : inherentFamily_inh g with
+  | false =>
+    obtain ⟨b, row, hb, hr, h1, h2⟩ := (helperImpls_trait_rows_em hh hinh).2 i h hi
+    exact ⟨b, row, hb, hr, fun _ => ⟨h1, h2⟩, fun e => (by cases e)⟩
+  | true =>
+    obtain ⟨b, row, hb, hr, h1, h2⟩ := (helperImpls_inherent_rows_em hh hinh).2 i h hi
+    exact ⟨b, row, hb, hr, fun e => (by cases e), fun _ => ⟨h1, h2⟩⟩
+
+/-- the two statements above as EXECUTABLE exact checks (`mainWhereExact_em trait? idx g m`: the where-clause of `m`
+    equals the list of `C12_main_where_clause_emits_tbTokens(_inherent)`; `helperRowsExact_em g hs`: one helper impl
+    per member, each starting its trait arguments with the printed row) hold of the model's expansion; they can be
+    evaluated on a real expansion, where they compare trees exactly (no `normTr`) -/
+theorem C12_exact_checkers_hold (idx : Nat) (g : T × ABG × List Blk) :
+    (∀ tr m, mainImplOfTrait tr idx g = .ok m → mainWhereExact_em (some tr) idx g m = true) ∧
+    (∀ m, mainImplInherent idx g = .ok (some m) → mainWhereExact_em none idx g m = true) ∧
+    (∀ hs, helperImpls idx g = some hs → helperRowsExact_em g hs = true) :=
+  ⟨fun _ _ h => mainWhereExact_of_trait_em h, fun _ h => mainWhereExact_of_inherent_em h,
+   fun _ h => helperRowsExact_of_em h⟩
+
+/-- **Which spelling is printed** (un-nested inputs). For an accepted invocation in which no header generalises
+    another (`noNesting`, executable) and whose blocks are well-formed (`flatWF0`, executable: every trait path of a
+    bound is comparable, a header that matches itself does so with identity bindings), every family has a LAST member
+    `l` — an input block — such that every trait path printed in a key predicate (`p ∈ keyPathsFor_em …`, printed as
+    `tbTokens p` by `C12_main_where_clause_emits_tbTokens`) and every key projected in `Self: _Helper<…>` or in a
+    helper impl's wildcard is, tree for tree, a bound `rb.bounded: rb.tr` that `l` wrote (`rb ∈ l.raw`: the bounds
+    `TraitBoundsVisitor::find` reads off the canonicalised block). So the emitted bound is the last member's bound
+    with exactly its bindings removed. -/
+theorem C12_emitted_bound_is_a_members_bound (items : List T) (groups : Groups) (hn : noNesting items = true)
+    (hwf : flatWF0 items = true) (h : parseGroups items = .ok groups) :
+    ∀ e ∈ groups, ∃ l, e.2.2.getLast? = some l ∧ l ∈ items.map mkBlk ∧
+      (∀ b p, p ∈ keyPathsFor_em e.2.1 b → ∃ rb ∈ l.raw, rb.bounded = b ∧ rb.tr = p) ∧
+      (∀ kx ∈ e.2.1.idents, ∃ rb ∈ l.raw, rb.bounded = kx.1.1 ∧ rb.tr = kx.1.2) := by
+  intro e he
+  obtain ⟨l, hl, hli, hkeys⟩ := flat_stored_key_last_em h (by simpa [noNesting] using hn) hwf e he
+  have hk := parseGroups_keysProper_em h he
+  refine ⟨l, hl, hli, fun b p hp => ?_, fun kx hkx => ?_⟩
+  · obtain ⟨kr, hkr, hkrp⟩ := mem_keyPathsFor_em hk hp
+    obtain ⟨rb, hrb, he'⟩ := hkeys kr hkr
+    rw [hkrp] at he'
+    simp only [Prod.mk.injEq] at he'
+    exact ⟨rb, hrb, he'.1.symm, he'.2.symm⟩
+  · obtain ⟨rows, hrows⟩ := idents_mem hkx
+    obtain ⟨rb, hrb, he'⟩ := hkeys _ hrows
+    simp only at he'
+    exact ⟨rb, hrb, by rw [he'], by rw [he']⟩
+
+/-- nested inputs (no side condition beyond acceptance): every stored key is one of the RE-EXPRESSIONS
+    (`reexpr`: `substituteBound` under the substitution the search used for that member; the key itself for the
+    founding member) of a bound `rb.bounded: rb.tr` that some member `b` wrote -/
+theorem C12_emitted_bound_is_a_reexpressed_members_bound (items : List T) (groups : Groups)
+    (h : parseGroups items = .ok groups) :
+    ∀ e ∈ groups, ∀ kx ∈ e.2.1.idents, ∃ (i : Nat) (b : Blk) (rb : RawBound),
+      e.2.2[i]? = some b ∧ rb ∈ b.raw ∧ kx.1 ∈ reexpr (parseEnv items) e.1 i b (rb.bounded, rb.tr) := by
+  intro e he kx hkx
+  obtain ⟨rows, hrows⟩ := idents_mem hkx
+  obtain ⟨i, b, k', r, hb, hk', hre⟩ := C11_stored_key_is_reexpression items groups h e he _ hrows
+  obtain ⟨rb, hrb, hk⟩ := (otherFold_spec b _ hk').1
+  simp only at hk
+  exact ⟨i, b, rb, hb, hrb, by rw [← hk]; exact hre⟩
+
+/-! ### Non-vacuity: the README input with a differently spelled dispatch bound -/
+
+namespace Ex12
+open Ex11
+def u8 : T := Ex11.tyPath [Ex11.seg "u8"]
+def colon (b : Bool) : T := if b then .node "Some" ["PathSep"] [] else leaf "None"
+/-- `Dispatch<u8, Group = g>`, spelled with a leading `::` (`lead`) and with `::` before `<` (`turbo`), e.g.
+    `::Dispatch::<u8, Group = GroupA>`; `g = none`: without the binding, i.e. as `tbTokens` prints it -/
+def dispatchSp (lead turbo : Bool) (g : Option String) : T :=
+  .node "Path" [] [.node "IgnL" [] [colon lead], .node "List" [] [
+   .node "PathSegment" [] [.node "Ident" ["Dispatch"] [], .node "PathArguments::AngleBracketed" [] [.node "Ign" [] [colon turbo],
+    .node "List" [] (.node "GenericArgument::Type" [] [u8] :: (match g with
+      | some g => [.node "GenericArgument::AssocType" [] [.node "AssocType" [] [.node "Ident" ["Group"] [], leaf "None", Ex11.tyPath [Ex11.seg g]]]]
+      | none => []))]]]]
+/-- `impl<T: Dispatch<u8, Group = g>> Kita for T {}` with the bound spelled as above -/
+def blockSp (lead turbo : Bool) (g : String) : T :=
+  implOf [tyParam "T" [traitBound (dispatchSp lead turbo (some g))]] (Ex11.tyPath [Ex11.seg "T"])
+def p0 : T := .tparam "_ŠČ0"
+/-- `impl<T: ?Sized + Dispatch<Group = g>> Kita for T {}` -/
+def blockSized (g : String) : T :=
+  implOf [tyParam "T" [ExInh.maybeSized, traitBound (dispatch g)]] (Ex11.tyPath [Ex11.seg "T"])
+/-- `Dispatch<>` -/
+def dispatchEmpty : T := Ex11.path [.node "PathSegment" [] [.node "Ident" ["Dispatch"] [],
+  .node "PathArguments::AngleBracketed" [] [.node "Ign" [] [Ex11.leaf "None"], .node "List" [] []]]]
+/-- `where _ŠČ0: Dispatch<u8>, Self: _Kita0<<_ŠČ0 as Dispatch<u8>>::Group>` with `Dispatch<u8>` spelled as requested -/
+def expectedWhere (lead turbo : Bool) : List T :=
+  [whereType p0 [traitBoundOf (dispatchSp lead turbo none)],
+   whereType selfTy [traitBoundOf (pathNode noLead [DI.seg "_Kita0"
+     (DI.angle [gaType (qualified_em p0 (dispatchSp lead turbo none) "Group")])])]]
+def ltA : T := .node "Lifetime" [] [.node "Ident" ["a"] []]
+/-- `for<'a>` as the `lifetimes` field of a `syn::TraitBound` -/
+def forA : T := .node "Some" [] [.node "BoundLifetimes" [] [.node "List" [] [.node "GenericParam::Lifetime" []
+  [.node "LifetimeParam" [] [attrs, ltA, leaf "None", .node "List" [] []]]]]]
+/-- `Dispatch<'a, Group = g>`; `g = none`: `Dispatch<'a>` -/
+def dispatchLt (g : Option String) : T :=
+  path [.node "PathSegment" [] [.node "Ident" ["Dispatch"] [], .node "PathArguments::AngleBracketed" [] [.node "Ign" [] [leaf "None"],
+    .node "List" [] (.node "GenericArgument::Lifetime" [] [ltA] :: (match g with
+      | some g => [.node "GenericArgument::AssocType" [] [.node "AssocType" [] [.node "Ident" ["Group"] [], leaf "None", Ex11.tyPath [Ex11.seg g]]]]
+      | none => []))]]]
+/-- the higher-ranked bound `for<'a> p` -/
+def hrBound (p : T) : T :=
+  .node "TypeParamBound::Trait" [] [.node "TraitBound" [] [leaf "None", leaf "TraitBoundModifier::None", forA, p]]
+/-- `impl<T: for<'a> Dispatch<'a, Group = g>> Kita for T {}` -/
+def blockHr (g : String) : T := implOf [tyParam "T" [hrBound (dispatchLt (some g))]] (Ex11.tyPath [Ex11.seg "T"])
+end Ex12
+
+section EmitExamples
+open Ex12
+set_option maxRecDepth 1000000
+
+/-- spelling is preserved by `tbTokens`: `::Dispatch::<u8, Group = GroupA>` ↦ `::Dispatch::<u8>` -/
+example : tbTokens (dispatchSp true true (some "GroupA")) = dispatchSp true true none ∧
+    isPathNode_em (dispatchSp true true (some "GroupA")) = true := by decide
+
+/-- the README input, first block spelled `::Dispatch::<u8, Group = GroupA>`, second `Dispatch<u8, Group = GroupB>`:
+    accepted, both generators succeed (the hypotheses of `C12_main_where_clause_emits_tbTokens` and
+    `C12_helper_wildcards_emit_tbTokens`), the key map is proper, and the where-clause of the main impl is literally
+    `_ŠČ0: Dispatch<u8>, Self: _Kita0<<_ŠČ0 as Dispatch<u8>>::Group>` — the LAST member's spelling, bindings removed;
+    the helper impls print their payloads -/
+example : ExOK.checkFirst [blockSp true true "GroupA", blockSp false false "GroupB"] (fun g hs m =>
+    keysProper_em g.2.1 && implWhere_em m == expectedWhere false false &&
+    hs.map implTraitArgs_em == [[gaType (Ex11.tyPath [Ex11.seg "GroupA"])], [gaType (Ex11.tyPath [Ex11.seg "GroupB"])]]) = true := by
+  with_unfolding_all decide
+
+/-- the blocks in the other order: now `::Dispatch::<u8>` is printed, leading `::` and `::<` included -/
+example : ExOK.checkFirst [blockSp false false "GroupB", blockSp true true "GroupA"] (fun g _ m =>
+    keysProper_em g.2.1 && implWhere_em m == expectedWhere true true) = true := by
+  with_unfolding_all decide
+
+/-- finding F-D3 in terms of what is printed: in the family `(T, U)` with the nested member
+    `(T, Vec<U>) where Vec<U>: Dispatch` (inputs of `C01_expandOK_wildcard_counterexample`) the wildcard entry of the
+    second member's row is printed as the projection of the FAMILY's key, `<_ŠČ1 as Dispatch>::Group`, although the
+    member's substitution maps `_ŠČ1` to `Vec<_ŠČ1>`: it is not `<Vec<_ŠČ1> as Dispatch>::Group` -/
+theorem C12_helper_wildcard_prints_family_key_counterexample :
+    ExOK.checkFirst [ExOK.d3a, ExOK.d3b] (fun g hs _ =>
+      match hs[1]?, g.2.1.idents[1]?, g.2.1.payloads[1]?, (thetasOf g)[1]? with
+      | some h, some kx, some row, some θ =>
+          row[1]? == some none &&
+          (implTraitArgs_em h)[1]? == some (gaType (projection kx.1.1 kx.1.2 kx.2)) &&
+          inst θ kx.1.1 != kx.1.1 &&
+          (implTraitArgs_em h)[1]? != some (gaType (projection (inst θ kx.1.1) kx.1.2 kx.2))
+      | _, _, _, _ => false) = true := by with_unfolding_all decide
+
+/-- non-vacuity of `C12_emitted_bound_is_a_members_bound`: the spelled README input is un-nested and well-formed, it
+    is accepted, and the key printed is the bound the LAST block wrote (`Dispatch<u8, Group = GroupB>` on `_ŠČ0`) -/
+example : (noNesting [blockSp true true "GroupA", blockSp false false "GroupB"] &&
+    flatWF0 [blockSp true true "GroupA", blockSp false false "GroupB"] &&
+    ExOK.checkFirst [blockSp true true "GroupA", blockSp false false "GroupB"] (fun g _ _ =>
+      g.2.1.idents.map (fun kx => kx.1) == [(p0, dispatchSp false false (some "GroupB"))] &&
+      (match g.2.2.getLast? with
+       | some l => l.raw.map (fun rb => (rb.bounded, rb.tr)) == [(p0, dispatchSp false false (some "GroupB"))]
+       | none => false))) = true := by
+  with_unfolding_all decide
+
+/-- `noNesting` is needed for the literal statement: in the nested family of `C12_helper_wildcard_prints_family_key_counterexample`
+    the second stored key is `_ŠČ1: Dispatch` — the last member's `Vec<_ŠČ1>: Dispatch` re-expressed over the family's
+    parameters — and no member wrote that bound (the first wrote `_ŠČ1: Dispatch<Group = GroupA>`) -/
+theorem C12_nested_emitted_bound_not_written_counterexample :
+    (!noNesting [ExOK.d3a, ExOK.d3b] &&
+    ExOK.checkFirst [ExOK.d3a, ExOK.d3b] (fun g _ _ =>
+      match g.2.1.idents[1]? with
+      | some kx => g.2.2.all (fun b => b.raw.all (fun rb => !((rb.bounded, rb.tr) == kx.1)))
+      | none => false)) = true := by with_unfolding_all decide
+
+/-- non-vacuity (inherent mode, hypotheses of `C12_main_where_clause_emits_tbTokens_inherent` and of the inherent branch
+    of `C12_helper_impl_arguments`): two blocks `impl<T: Dispatch<Group = g>> Wrapper<T> { … }`; the main impl's
+    where-clause is literally `_ŠČ0: Dispatch<>, Self: _Wrapper0<<_ŠČ0 as Dispatch<>>::Group, _ŠČ0>` (`Dispatch<Group = g>`
+    with exactly the binding removed is `Dispatch<>`), the helper impls are for `_Wrapper0<GroupA, _ŠČ0>` and
+    `_Wrapper0<GroupB, _ŠČ0>`, and both exact checkers accept -/
+example : ExInh.checkFirst [ExInh.blockW "GroupA", ExInh.blockW "GroupB"] (fun g _ hs m =>
+    inherentFamily_inh g && mainWhereExact_em none 0 g m && helperRowsExact_em g hs &&
+    implWhere_em m == [whereType p0 [traitBoundOf dispatchEmpty],
+      whereType selfTy [traitBoundOf (pathNode noLead [DI.seg "_Wrapper0"
+        (DI.angle [gaType (qualified_em p0 dispatchEmpty "Group"), gaType p0])])]] &&
+    hs.map implTraitArgs_em == [[gaType (Ex11.tyPath [Ex11.seg "GroupA"]), gaType p0],
+      [gaType (Ex11.tyPath [Ex11.seg "GroupB"]), gaType p0]] &&
+    hs.map implTraitName_em == ["_Wrapper0", "_Wrapper0"]) = true := by
+  with_unfolding_all decide
+
+/-- the `?Sized` clause: `impl<T: ?Sized + Dispatch<Group = g>> Kita for T {}` twice; the bounded type is relaxed
+    (`g.2.1.unsized = [_ŠČ0]`) and the predicate is `_ŠČ0: ?Sized + Dispatch<>`, `?Sized` first -/
+example : ExOK.checkFirst [blockSized "GroupA", blockSized "GroupB"] (fun g _ m =>
+    g.2.1.unsized == [p0] &&
+    implWhere_em m == [whereType p0 [maybeSizedBound, traitBoundOf dispatchEmpty],
+      whereType selfTy [traitBoundOf (pathNode noLead [DI.seg "_Kita0"
+        (DI.angle [gaType (qualified_em p0 dispatchEmpty "Group")])])]]) = true := by
+  with_unfolding_all decide
+
+/-- **Counterexample (new finding): the `for<…>` binder of a dispatch bound is dropped.** `TraitBound` stores only the
+    PATH of the user's bound, so the bound printed in the where-clause of the main impl is the user's PATH with exactly
+    the bindings removed (the theorems above) — not the user's whole BOUND: for
+    `impl<T: for<'a> Dispatch<'a, Group = g>> Kita for T {}` (twice, `g = GroupA / GroupB`) the invocation is accepted,
+    both generators succeed, and the key predicate is `_ŠČ0: Dispatch<'a>` (a bound without binder), which is different
+    from the user's bound with the binding removed, `for<'a> Dispatch<'a>`; the lifetime `'a` is now free in the
+    where-clause and the main impl does not declare it (rustc: E0261 on the real expansion). -/
+theorem C12_bound_binder_dropped_counterexample :
+    ExOK.checkFirst [blockHr "GroupA", blockHr "GroupB"] (fun g _ m =>
+      g.2.1.idents.map (fun kx => kx.1) == [(p0, dispatchLt (some "GroupB"))] &&
+      (implWhere_em m).head? == some (whereType p0 [traitBoundOf (dispatchLt none)]) &&
+      traitBoundOf (dispatchLt none) != hrBound (dispatchLt none) &&
+      (identsOfL_inh (implWhere_em m)).contains "a" &&
+      !((genericsParams (XOK.kid m 3)).filterMap paramIdent).contains "a") = true := by
+  with_unfolding_all decide
+end EmitExamples
 
 end DI
